@@ -30,7 +30,7 @@ pub const PROPERTIES: &[&str] = &["C17", "C18"];
 
 const ENGINE_TAG: u64 = 4;
 const QUICK_RUNS: u64 = 30_000;
-const THOROUGH_RUNS: u64 = 500_000;
+const THOROUGH_RUNS: u64 = 800_000;
 /// every n-th run is executed twice and its log compared
 const RECHECK_EVERY: u64 = 50;
 
